@@ -78,3 +78,26 @@ META["C18"] = {
             "printer does; mutated and random texts must never make a parser panic, and whatever is accepted must be well formed and stable. Held on the texts explored.",
     "note": "Trusted: the harness printer/generator; inputs are valid UTF-8 (the API takes &str).",
 }
+
+META["C11"] = {
+    "technique": "metamorphic monitor: the same history under an injective renaming of the slot alphabet, all observables compared",
+    "design_ref": "DESIGN.md §4 C11",
+    "text": "Each generated history (insertions, unions, rewrite iterations) is executed under neutral names and under a hostile renaming (numeric vs textual, reversed internal order, "
+            "fresh-like names, shuffled interning order) in separate threads; every equality answer, the class profile, per-term slots/symmetries, extracted costs and node counts must agree and "
+            "returned slot sets must be the renamed originals. Held on the pairs explored.",
+    "note": "Trusted: the observation function in harness/src/props/meta.rs; analysis data is covered by C14's lanes.",
+}
+META["C12"] = {
+    "technique": "metamorphic monitor: permuted insertion/union orders and flipped orientations of one history, observables compared",
+    "design_ref": "DESIGN.md §4 C12",
+    "text": "The same term set and equation set is asserted in several random orders and orientations; the equality relation over all inserted terms under all relative namings, the "
+            "number of live classes and every term's slot and symmetry count must not depend on the order. Differences are minimised. Held on the orders explored.",
+    "note": "Trusted: observation function; histories are small (<= 6 terms, <= 5 unions).",
+}
+META["C13"] = {
+    "technique": "online trace monitor with a recorder of earlier answers (equal pairs, handles, slot sets, progress) re-checked along long histories",
+    "design_ref": "DESIGN.md §4 C13",
+    "text": "Along long mixed histories every earlier answer is re-validated later: recorded equalities must persist, old handles must canonicalise, compare and extract, slot sets must "
+            "only shrink and the progress measure must move lexicographically as documented, asserted at every step with the previous value in hand. Held on the histories explored.",
+    "note": "Trusted: recorder bookkeeping; cases exceeding the wall-clock watchdog are counted inconclusive, never as violations.",
+}
